@@ -447,6 +447,32 @@ fn build_schema(rng: &mut Rng, malformed: bool) -> Built {
     Built { text, features, type_names, scalar_names, has_model }
 }
 
+/// every wrapper nesting up to `depth` list levels (each level and the leaf nullable or not) over every
+/// kind of leaf, one single-field object / input object per nesting: the exhaustive small-scope part
+fn wrapper_schema(depth: usize) -> Built {
+    let mut nestings: Vec<Vec<String>> = vec![vec!["@".into(), "@!".into()]];
+    for d in 0..depth {
+        let next: Vec<String> = nestings[d].iter().flat_map(|x| vec![format!("[{x}]"), format!("[{x}]!")]).collect();
+        nestings.push(next);
+    }
+    let all: Vec<String> = nestings.into_iter().flatten().collect();
+    let mut text = String::from("scalar Date\nenum E { A B }\ninput In { x: Int }\ninterface Node { id: ID }\ntype Obj implements Node { id: ID }\nunion U = Obj\ntype Query { a: Int }\n");
+    let mut type_names: Vec<String> = ["Date", "E", "In", "Node", "Obj", "U", "Query"].iter().map(|s| s.to_string()).collect();
+    for leaf in ["Int", "Date", "E", "Obj", "Node", "U"] {
+        for (k, n) in all.iter().enumerate() {
+            let _ = writeln!(text, "type W{leaf}{k} {{ f: {} }}", n.replace('@', leaf));
+            type_names.push(format!("W{leaf}{k}"));
+        }
+    }
+    for leaf in ["Int", "Date", "E", "In"] {
+        for (k, n) in all.iter().enumerate() {
+            let _ = writeln!(text, "input V{leaf}{k} {{ f: {} }}", n.replace('@', leaf));
+            type_names.push(format!("V{leaf}{k}"));
+        }
+    }
+    Built { text, features: vec![format!("all-wrapper-nestings-to-depth-{depth}")], type_names, scalar_names: vec!["Date".into()], has_model: false }
+}
+
 fn schema_opts(rng: &mut Rng, b: &Built, malformed: bool) -> SOpts {
     let mut scalars = builtin_scalars();
     if rng.chance(1, 6) { let i = rng.below(scalars.len()); scalars[i].1 = scalar_cfg(rng, &b.type_names); }
@@ -488,9 +514,12 @@ fn main() {
     let mut samples: Vec<J> = vec![];
     let mut name_cases: Vec<(String, J)> = vec![];
     let mut n_evals: u64 = 0;
-    for i in 0..(n_valid + n_malformed) {
-        let malformed = i >= n_valid;
-        let b = build_schema(&mut rng, malformed);
+    let mut specials: Vec<Built> = vec![wrapper_schema(if thorough { 3 } else { 2 })];
+    specials.reverse();
+    let n_special = specials.len();
+    for i in 0..(n_special + n_valid + n_malformed) {
+        let malformed = i >= n_special + n_valid;
+        let b = match specials.pop() { Some(b) => b, None => build_schema(&mut rng, malformed) };
         let doc = match load_schema(&b.text) {
             Ok(d) => d,
             Err(e) => { bump(&format!("schema-load-error:{}", e.split(':').next().unwrap_or(""))); continue; }
